@@ -102,6 +102,8 @@ func pricingText(name string) string {
 		return `{"price":"3stake","promotions_by_volume":[{"volume":1,"discount":"0.7"},{"volume":2,"discount":"0.4"}]}`
 	case "p1t":
 		return fmt.Sprintf(`{"price":"1stake","promotions_by_time":[{"start_time":"%s","end_time":"%s","discount":"0.5"}]}`, ts(2), ts(4))
+	case "p1te": // a time promotion that is open when the chain starts and ends two seconds later
+		return fmt.Sprintf(`{"price":"1stake","promotions_by_time":[{"start_time":"%s","end_time":"%s","discount":"0.5"}]}`, ts(0), ts(2))
 	case "p1tp": // a time promotion that ended before the chain started
 		return fmt.Sprintf(`{"price":"1stake","promotions_by_time":[{"start_time":"%s","end_time":"%s","discount":"0.5"}]}`, ts(-10), ts(-5))
 	case "p4t":
